@@ -237,6 +237,16 @@ func genTwinBook(r *rand.Rand, allowKnown bool) twinBook {
 		b.Sheets = append(b.Sheets, sheetSpec{Name: "Zeta#1", Meta: map[string]string{"Alias": "ZetaOne"},
 			Rows: [][]string{{"ID", "Num"}, {"map<uint32, Zeta>", "int32"}, {"id", "num"}, {"1", "10"}, {"2", strconv.Itoa(r.Intn(100))}}})
 	}
+	if r.Intn(6) == 0 {
+		// a custom metasheet name (an option of the run: the base book uses it too) and a type sheet longer than the
+		// importers' ten-row schema window
+		b.MetaName = "@META"
+		rows := [][]string{{"Number", "Name", "Alias"}}
+		for i := 1; i <= 12+r.Intn(3); i++ {
+			rows = append(rows, []string{strconv.Itoa(i), "Z_KIND_K" + strconv.Itoa(i), "K" + strconv.Itoa(i)})
+		}
+		b.Sheets = append(b.Sheets, sheetSpec{Name: "ZzKind", Rows: rows, Meta: map[string]string{"Mode": "MODE_ENUM_TYPE"}})
+	}
 	tb.book = b
 	return tb
 }
@@ -249,7 +259,12 @@ type twinResult struct {
 func runTwin(tb twinBook, container string) twinResult {
 	w := newWorkspace()
 	defer w.cleanup()
-	ro := runOpts{OutFormats: []format.Format{format.JSON, format.Bin}}
+	ro := runOpts{OutFormats: []format.Format{format.JSON, format.Bin}, MetasheetName: tb.book.MetaName}
+	baseBook := func() bookSpec {
+		bb := baseBook()
+		bb.MetaName = tb.book.MetaName
+		return bb
+	}
 	switch container {
 	case "csv":
 		w.writeCSVBook("", baseBook())
